@@ -280,7 +280,7 @@ func (tdsChan *Channel) handleSpecialPackage(pkg Package) (bool, error) {
 				if packSize <= PacketHeaderSize || packSize > math.MaxUint16 {
 					return false, fmt.Errorf("invalid new packet size: %d", packSize)
 				}
-				tdsChan.tdsConn.packetSize = packSize
+				tdsChan.tdsConn.setPacketSize(packSize)
 			}
 
 			tdsChan.callEnvChangeHooks(member.Type, member.OldValue, member.NewValue)
